@@ -15,7 +15,7 @@ TRUST = ('trusted base: refmodels.policy_eval (from the statement), keyword mapp
 TECHNIQUE = 'deterministic simulation as the end-to-end observation point; reference-model oracle; metamorphic pairs'
 LEVEL = 'exploration'
 BUDGET = {'quick': 200, 'thorough': 2400}
-NCASES = {'quick': 700, 'thorough': 14000}
+NCASES = {'quick': 2100, 'thorough': 14000}
 RULE = ('cases: (policy, peer) pairs; non-trivial: a verdict was reached; distinct by (flag triple, field, relation between policy and peer for that field). Cell coverage is reported.')
 ASSUMPTIONS = ['fault-free: equality with the reference is asserted only when every probe completed']
 
